@@ -1,0 +1,52 @@
+//go:build verif
+
+// Contracts for package modify (checked by /verif/govc; comment-only file).
+package modify
+
+//@ import module "github.com/foxcpp/maddy/framework/module"
+
+// ---- C04: a modifier group rewrites a recipient by running its modifiers in declaration order ----
+// A modifier state is assumed to be a function of (state, address) for the duration of one call of the group:
+// rwFails(st, a): it refuses a; otherwise it returns rwLen(st, a) addresses rwAt(st, a, 0..).
+//@ uninterp func rwFails(st module.ModifierState, a string) bool
+//@ uninterp func rwLen(st module.ModifierState, a string) int
+//@ uninterp func rwAt(st module.ModifierState, a string, i int) string
+//@ extern func (groupState).RewriteRcpt#RewriteRcpt$call(m module.ModifierState, ctx context.Context, rcptTo string) (newTo []string, err error)
+//@   ensures (err != nil) == rwFails(m, rcptTo)
+//@   ensures err == nil ==> len(newTo) == rwLen(m, rcptTo) && rwLen(m, rcptTo) >= 0 && (forall i int :: 0 <= i && i < len(newTo) ==> newTo[i] == rwAt(m, rcptTo, i))
+// compose(sts, n, a): a after the first n modifiers, each taken as a one-to-one rewrite;
+// chain11(sts, n, a): the first n modifiers accept and each returns exactly one address along that chain.
+//@ rec func compose(sts []module.ModifierState, n int, a string) string = n <= 0 ? a : rwAt(sts[n-1], compose(sts, n-1, a), 0)
+//@ rec func chain11(sts []module.ModifierState, n int, a string) bool = n <= 0 ? true : (chain11(sts, n-1, a) && !rwFails(sts[n-1], compose(sts, n-1, a)) && rwLen(sts[n-1], compose(sts, n-1, a)) == 1)
+// RewriteRcpt: when every modifier of the group maps the address it is given to exactly one address, the group returns
+// exactly the composition in declaration order; a refusal by the first modifier is the group's refusal; an empty
+// group returns the address unchanged. (The general one-to-N case is covered by the no-panic and frame obligations and
+// by the append-alias obligation: no stage overwrites the list the next stage is still reading.)
+//@ lemma chain11-prefix induction n prop C04: forall sts []module.ModifierState, n int, m int, a string :: 0 <= m && m <= n && chain11(sts, n, a) ==> chain11(sts, m, a)
+//@ func (groupState).RewriteRcpt
+//@   prop C04
+//@   nopanic
+//@   requires forall k int :: 0 <= k && k < len(gs.states) ==> gs.states[k] != nil
+//@   ensures chain11(gs.states, len(gs.states), rcptTo) ==> result1 == nil && len(result0) == 1 && result0[0] == compose(gs.states, len(gs.states), rcptTo)
+//@   ensures len(gs.states) == 0 ==> result1 == nil && len(result0) == 1 && result0[0] == rcptTo
+//@   ensures len(gs.states) > 0 && rwFails(gs.states[0], rcptTo) ==> result1 != nil
+//@   loop 0 invariant len(result) >= 0 && (chain11(gs.states, rangeindex + 1, rcptTo) ==> len(result) == 1 && result[0] == compose(gs.states, rangeindex + 1, rcptTo)) && (rangeindex + 1 == 0 ==> len(result) == 1 && result[0] == rcptTo) && (rangeindex + 1 > 0 ==> !rwFails(gs.states[0], rcptTo))
+//@   loop 1 invariant (outerindex + 1 == 0 && rangeindex + 1 > 0 ==> !rwFails(gs.states[0], rcptTo)) && (outerindex + 1 > 0 ==> !rwFails(gs.states[0], rcptTo)) && (chain11(gs.states, outerindex + 2, rcptTo) ==> (rangeindex + 1 == 0 ==> len(intermediateResult) == 0) && (rangeindex + 1 == 1 ==> len(intermediateResult) == 1 && intermediateResult[0] == compose(gs.states, outerindex + 2, rcptTo)))
+
+// RewriteSender: the group's sender rewrite is the composition of its modifiers' rewrites in declaration order, and it
+// fails exactly when some modifier along that chain refuses the address it is given.
+//@ uninterp func rsFails(st module.ModifierState, a string) bool
+//@ uninterp func rsOut(st module.ModifierState, a string) string
+//@ extern func (groupState).RewriteSender#RewriteSender$call(m module.ModifierState, ctx context.Context, mailFrom string) (newFrom string, err error)
+//@   ensures (err != nil) == rsFails(m, mailFrom)
+//@   ensures err == nil ==> newFrom == rsOut(m, mailFrom)
+//@ rec func sCompose(sts []module.ModifierState, n int, a string) string = n <= 0 ? a : rsOut(sts[n-1], sCompose(sts, n-1, a))
+//@ rec func sChain(sts []module.ModifierState, n int, a string) bool = n <= 0 ? true : (sChain(sts, n-1, a) && !rsFails(sts[n-1], sCompose(sts, n-1, a)))
+//@ lemma schain-prefix induction n prop C04: forall sts []module.ModifierState, n int, m int, a string :: 0 <= m && m <= n && sChain(sts, n, a) ==> sChain(sts, m, a)
+//@ func (groupState).RewriteSender
+//@   prop C04
+//@   nopanic
+//@   requires forall k int :: 0 <= k && k < len(gs.states) ==> gs.states[k] != nil
+//@   ensures sChain(gs.states, len(gs.states), mailFrom) ==> result1 == nil && result0 == sCompose(gs.states, len(gs.states), mailFrom)
+//@   ensures !sChain(gs.states, len(gs.states), mailFrom) ==> result1 != nil
+//@   loop 0 invariant sChain(gs.states, rangeindex + 1, mailFrom) && cur(mailFrom) == sCompose(gs.states, rangeindex + 1, mailFrom)
